@@ -214,6 +214,39 @@ def readyNeedsPause (w : World) (r : StepResult) : Bool :=
     else true
   | _, _ => true
 
+/-- replicas that step `i` (1-based) of the plan asks for on this workload -/
+def stepReplicas (ro : Rollout) (wl : WL) (i : Int) : Option Int :=
+  if i < 1 then none else (ro.steps[(i - 1).toNat]?).map fun st => scaledV st.replicas wl.replicas true
+
+/-- what the BatchRelease has been authorised to release so far: the entry of *its* plan its partition points at -/
+def releasedByBR (b : BR) (wl : WL) : Option Int :=
+  match b.partition with
+  | some p => if p < 0 then none else (b.batches[p.toNat]?).map fun e => scaledV e wl.replicas true
+  | none => none
+
+def coversIdx (ro : Rollout) (wl : WL) (rel : Int) (i : Int) : Bool :=
+  match stepReplicas ro wl i with
+  | some r => decide (rel ≤ r)
+  | none => false
+
+/-- **C01 (across edits of the plan)** — when the plan is edited while a step is in progress, the rollout re-positions
+    itself (`recalculateCanaryStep`) on a step of the NEW plan that covers what the BatchRelease was already authorised to
+    release under the OLD plan (its `batchPartition`, not the batch it happens to have reached): afterwards the current
+    step or the one it is about to move to allows at least that many pods — whenever the new plan has such a step at all. -/
+def recalcCovers (w : World) (r : StepResult) : Bool :=
+  match w.wl, w.ro.sub, r.w.ro.sub, w.br with
+  | some wl, some s, some s', some b =>
+    if inRollingNow w.ro ∧ ¬ w.ro.paused ∧ wl.consistent ∧ ¬ wl.inRollback ∧ wl.canaryRev = s.canaryRev ∧ s.hash = .differs ∧
+       r.w.ro.reason = .inRolling ∧ ¬ r.err then
+      match releasedByBR b wl with
+      | some rel =>
+        if (List.range w.ro.steps.length).any (fun i => coversIdx w.ro wl rel ((i : Int) + 1)) then
+          coversIdx w.ro wl rel s'.curIdx || coversIdx w.ro wl rel s'.nextIdx
+        else true
+      | none => true
+    else true
+  | _, _, _, _ => true
+
 /-- **C04 / C02** — while the workload's status is not consistent with its spec (`generation ≠ observedGeneration`: the
     controller cannot tell which revision the pods run, the finder reports an empty `Workload`) a reconcile of a Rollout
     that is not being deleted only waits: nothing is written to the BatchRelease, the workload or the network, the
@@ -242,6 +275,7 @@ def stepOracles (w : World) (r : StepResult) : List (String × Bool) :=
    ("C02.no_self_jump", noSelfJump w r),
    ("C10.reset_routes_first", resetRoutesFirst w r),
    ("C02.ready_needs_pause", readyNeedsPause w r),
+   ("C01.recalc_covers_released", recalcCovers w r),
    ("C04.inconsistent_waits", inconsistentWaits w r),
    ("C05.inconsistent_waits", inconsistentWaits w r),
    ("C02.inconsistent_waits", inconsistentWaits w r)]
